@@ -151,7 +151,8 @@ def c07(tier, seed):
                       "every message length 0..4R+130 for refill size R x {sha1, md5, sha256} x entry point {string, file "
                       "buffer, file buffer with 64-byte prefix block (the HMAC path), file positioned at a non-zero offset}, "
                       "contents random / zeros / 0xff / 0x80-terminated; plus production refill boundaries (32 MiB +-1, 64 MiB+63) "
-                      "and synthetic streams of >= 2^29 bytes crossing the 2^32-bit counter; distinct = (alg, entry, len mod 64, "
+                      "and synthetic streams of >= 2^29 bytes crossing the 2^32-bit counter; digests taken at the same time by independent "
+                      "hasher objects on 2..6 threads; distinct = (alg, entry, len mod 64, "
                       "refills) classes whose digest equalled libcrypto's", s + s2, extra, min_evaluations=3000)
 
 
@@ -169,6 +170,7 @@ def c08(tier, seed):
                       "messages of every length 0..600 (thorough 0..2100) x 3 hashes x start position {0,1,48,len} x keys "
                       "(random, all-zero, all-ff): gethmac vs RFC 2104 HMAC from libcrypto; cmphmac must accept the right tag and "
                       "reject single-bit variants (all 8*hlen bits on a subset) and multi-byte variants; one hmac object reused across "
+                      "hash modes; independent hmac objects on 2..6 threads at the same time; "
                       "hash modes; generated files for T=1..16: tag at [10,10+hlen) == HMAC(key, file[48:]), zero fill to 48; spans of "
                       "2^29-64 (+57) bytes with production constants; distinct = (hash, inner length mod 64, position kind) and file classes",
                       s + s2[:2], extra, min_evaluations=5000)
